@@ -14,6 +14,25 @@ CLAIMED = {
             "Bounds: ints |v|<=99, text len<=2 ASCII (arithmetic on text: concrete pool), floats as exact reals |x|<=1e6, pow with concrete exponent pool; "
             "trusted: z3, CrossHair proxies, plugin models in vf/chplugin.py.",
             "DESIGN.md 4/C10"),
+    "C14": ("model_checking",
+            "CrossHair symbolic execution of the real aggregate functions and compiled SUBTOTAL, z3 decides every path (bounded model checking)",
+            "Aggregation laws (numeric-only, first error, permutation/reshape invariance, additivity, AVERAGE=SUM/COUNT, SUBTOTAL dispatch, SUMPRODUCT) "
+            "are assertions over rectangles whose cells are solver-chosen classes {number, logical, blank, text, error} with symbolic values, "
+            "run through the real _numerics/sum_/average/count/max_/min_/sumproduct and a really compiled =SUBTOTAL(n, range); exhausted path tree = holds for all cell contents in the bound.",
+            "Bounds: rectangles up to 1x3 (quick) / 2x2, 3x1, 1x4 (thorough), ints |v|<=99, text from a 2-word pool plus one symbolic-text obligation, two error codes; floats as reals.",
+            "DESIGN.md 4/C14"),
+    "C15": ("model_checking",
+            "CrossHair symbolic execution of criteria_parser/handle_ifs and the ...IF(S) functions against hand-written reference predicates, z3 decides every path",
+            "For each criterion of a concrete 20-entry grammar pool the real COUNTIF(S)/SUMIF(S)/AVERAGEIF(S)/MAXIFS/MINIFS are executed on ranges whose cell classes and values, "
+            "sum ranges and numeric criteria are symbolic, and compared with a reference selection; also IFS(1)=IF, commutation, =x/<>x partition, AVERAGEIFS=SUMIFS/COUNTIFS, never-raises.",
+            "Bounds: criteria text concrete (regex), ranges up to 1x3 (quick) / 2x2, 1x4 (thorough); logical cells vs numeric criteria and numeric text vs <>number outside the claim; one known finding (numeric text counted by both =x and <>x).",
+            "DESIGN.md 4/C15"),
+    "C16": ("model_checking",
+            "CrossHair symbolic execution of _match/match/vlookup/hlookup/lookup/index against linear-scan references, z3 decides every path",
+            "MATCH types 0/1/-1, VLOOKUP/HLOOKUP (exact and approximate), vector and array LOOKUP and INDEX run for real on vectors/tables of enumerated shape with symbolic "
+            "elements (ints, ASCII text, logicals, blanks) and symbolic lookup value/indices; sortedness is a precondition written against an independent order.",
+            "Bounds: vectors len<=3 ints / <=2 mixed (quick), <=6 ints / <=4 mixed (thorough), tables <=3x3, text len<=1, wildcard patterns from a concrete pool.",
+            "DESIGN.md 4/C16"),
 }
 
 NOT_YET = "check not built yet in this round (machinery under construction); see DESIGN.md section 4"
